@@ -1,6 +1,23 @@
-"""C12 — see DESIGN.md section 5 "C12". Theorems: coq/Properties/C12.v (over Mseq); tie: T1 seq-diff (checks/seqcommon.py)."""
-from checks import seqcommon
+"""C12 — see DESIGN.md section 5 "C12". Theorems: coq/Properties/C12.v (over Mseq); ties: T1 seq-diff (checks/seqcommon.py) and, for
+"a lock's size is fixed while it exists" under concurrency (a collection pass racing an acquisition must not let the name be re-created
+with another size while it is held), T2 layer 1 with the scenarios and the oracle of C13 (GC passes against every scenario)."""
+from checks import seqcommon, lkcommon
+from lib import schedtie
 
 
 def run(ctx):
-    seqcommon.run_seq_only(ctx, "C12")
+    if ctx.replay:
+        import json
+        try:
+            obj = json.loads(open(ctx.replay).read())
+        except Exception:  # noqa
+            obj = None
+        if isinstance(obj, dict) and ("history" in obj or "shrunk" in obj or "events" in obj):
+            return seqcommon.replay(ctx, "C12")
+        return lkcommon.run(ctx, "C13")
+    ok = ctx.coq_stage()
+    seqcommon.seq_stage(ctx, "C12")
+    schedtie.run_property(ctx, "C13")
+    ctx.assumptions += ["T2 layer 1 for C12: the schedules and the oracle of C13 (a collected lock was unheld, unused and idle; nothing else changes), which is what keeps a held lock's size fixed under a concurrent collection"]
+    if not ok and not ctx.violations:
+        ctx.coq_broken_violation()
